@@ -23,6 +23,16 @@ func c16Channels(kind, name string, ch string) string {
 	return ch
 }
 
+// the encoding name of a mime type: without its media type, whatever its letter case
+func c16Name(mime string) string {
+	for _, prefix := range []string{"audio/", "video/"} {
+		if len(mime) >= len(prefix) && strings.EqualFold(mime[:len(prefix)], prefix) {
+			return mime[len(prefix):]
+		}
+	}
+	return mime
+}
+
 func c16Run(c pcCase) (V, Verdict) {
 	r := pcRun(c)
 	obs := pcObs(c, r)
@@ -107,7 +117,7 @@ func c16CheckSection(r pcResult, k, i int, s pcSection, listed *int) (string, st
 		if a := ex.Local[i]; a >= 0 && len(r.Added[a].Prefs) > 0 {
 			// getCodecs emits the preference entry itself: find the one that renders to this rtpmap
 			for _, p := range r.Added[a].Prefs {
-				name := strings.TrimPrefix(strings.TrimPrefix(p.Mime, "audio/"), "video/")
+				name := c16Name(p.Mime)
 				want := fmt.Sprintf("%s/%d", name, p.Clock)
 				if p.Ch > 0 {
 					want += fmt.Sprintf("/%d", p.Ch)
@@ -118,8 +128,6 @@ func c16CheckSection(r pcResult, k, i int, s pcSection, listed *int) (string, st
 				switch {
 				case p.PT != 0 && int(p.PT) == pt && (hit == nil || !strings.EqualFold(off.Kind+"/"+hit.Name, p.Mime)):
 					sig = "codec-preference-pt-kept-over-negotiated"
-				case hit != nil && strings.EqualFold(off.Kind+"/"+hit.Name, p.Mime) && name != strings.SplitN(p.Mime, "/", 2)[len(strings.SplitN(p.Mime, "/", 2))-1]:
-					sig = "mime-prefix-trim-case-sensitive"
 				case hit != nil && strings.EqualFold(off.Kind+"/"+hit.Name, p.Mime):
 					sig = "codec-preference-clock-channels-kept-over-negotiated"
 				}
@@ -200,6 +208,15 @@ func init() {
 				{Video: []cdc{vp8}, Multi: true, Answer: true,
 					Locals: []pcTrans{{Kind: 2, Dir: 1, Prefs: []cdc{{Mime: "video/VP8", Clock: 90000, PT: 0}}}},
 					Remote: []rsec{{Kind: "video", Codecs: []rcodec{{Name: "VP8", Clock: 90000, PT: 100}}}}},
+				// repaired (fix: addTransceiverSDP strips the media type of a mime type ignoring
+				// case): a codec registered as "vidEO/AV1" used to be answered as rtpmap "vidEO/AV1/90000"
+				{Video: []cdc{{Mime: "vidEO/AV1", Clock: 90000, PT: 45}}, Multi: true, Answer: true,
+					Remote: []rsec{{Kind: "video", Codecs: []rcodec{{Name: "AV1", Clock: 90000, PT: 45}}}}},
+				// an earlier offer's codec answered after a re-offer that no longer lists it
+				// (finding answer-codec-from-earlier-description)
+				{Video: []cdc{vp8, {Mime: "video/VP9", Clock: 90000, Line: "profile-id=0", PT: 98}}, Multi: true, Answer: true,
+					Pre:    []pcRound{{Remote: []rsec{{Kind: "video", Dir: 3, Codecs: []rcodec{{Name: "VP8", Clock: 90000, PT: 100}, {Name: "VP9", Clock: 90000, Line: "profile-id=0", PT: 101}}}}}},
+					Remote: []rsec{{Kind: "video", Dir: 3, Codecs: []rcodec{{Name: "VP9", Clock: 90000, Line: "profile-id=0", PT: 101}}}}},
 				// transceiver created from the remote description, RTX remapped
 				{Video: []cdc{vp8, {Mime: "video/rtx", Clock: 90000, Line: "apt=96", PT: 97}}, Multi: true, Answer: true,
 					Remote: []rsec{{Kind: "video", Codecs: []rcodec{{Name: "VP8", Clock: 90000, PT: 100}, {Name: "rtx", Clock: 90000, Line: "apt=100", PT: 101}}}}},
